@@ -76,6 +76,14 @@ func Prologue(variant int) []Op {
 	for i := 0; i < 13; i++ {
 		p = append(p, Op{OpMine, []int{0, 2, 1}[i%3], 0, i, 1})
 	}
+	if variant == 3 {
+		// variant 3: a deployed owner contract and contract-held coinbase lockups of two epochs
+		p = append(p, Op{OpDeploy, 0, 0, 0, 0}, Op{OpMine, 2, 0, 0, 0}, Op{OpMine, 2, 0, 1, 0}, Op{OpLockupMode, 1, 1, 0, 0})
+		for i := 0; i < 12; i++ {
+			p = append(p, Op{OpMine, []int{0, 2, 1}[i%3], i % 2, i, 2})
+		}
+		return p
+	}
 	if variant >= 2 {
 		// variant 2: additionally fan one output out into many and create trimmable dust, then bury both a little
 		p = append(p, Op{OpQiSpend, 0, 0, 2, 5}, Op{OpQiSpend, 1, 0, 3, 3}, Op{OpMine, 2, 0, 1, 2}, Op{OpMine, 2, 0, 2, 2}, Op{OpQiSpend, 3, 0, 3, 4}, Op{OpMine, 1, 0, 3, 2})
@@ -137,7 +145,7 @@ type chainCase struct {
 
 func drawCase(rt *rapid.T) chainCase {
 	c := chainCase{}
-	c.Prologue = rapid.SampledFrom([]int{0, 1, 1, 2, 2}).Draw(rt, "prologue")
+	c.Prologue = rapid.SampledFrom([]int{0, 1, 1, 2, 2, 3}).Draw(rt, "prologue")
 	c.Tape = DrawTape(rt, 6, 10)
 	c.Cfg = DefaultNodeConfig("n0")
 	c.Cfg.IndexAddressUtxos = rapid.Bool().Draw(rt, "indexAddressUtxos")
@@ -185,9 +193,17 @@ func chainProperty(t *testing.T, prop string, mk func(r *Runner, fail func(class
 
 // chainPropertyCfg: with engines=true the zone database engine (memorydb / leveldb / pebble) is drawn per run.
 func chainPropertyCfg(t *testing.T, prop string, engines bool, mk func(r *Runner, fail func(class, witness, detail string)) Hooks) {
+	chainPropertyOpt(t, prop, engines, nil, mk)
+}
+
+// chainPropertyOpt: prologues, if non-nil, replaces the default prologue distribution.
+func chainPropertyOpt(t *testing.T, prop string, engines bool, prologues []int, mk func(r *Runner, fail func(class, witness, detail string)) Hooks) {
 	rapid.Check(t, func(rt *rapid.T) {
 		defer simkit.EndOnKnown()
 		c := drawCase(rt)
+		if prologues != nil {
+			c.Prologue = rapid.SampledFrom(prologues).Draw(rt, "prologueOverride")
+		}
 		if engines {
 			eng := rapid.SampledFrom([]string{"memorydb", "leveldb", "pebble"}).Draw(rt, "zoneEngine")
 			dir, err := os.MkdirTemp(scratchBase(), "chainsim-")
@@ -394,7 +410,54 @@ func TestC10(t *testing.T) {
 			up := w.maxNumber()
 			a, b := ChainStateImage(n, up), ChainStateImage(ref, up)
 			if d := DiffImages(a, b); d != "[]" {
-				fail("refine-vs-fresh-node", when+" differs="+classifyDiff(a, b), fmt.Sprintf("after switching to %x (#%d) the node's chain state differs from a node that followed that branch directly (left=reorged node, right=fresh node): %s", tip[:6], w.Blocks[tip].Number, d))
+				cause := ""
+				if classifyDiff(a, b) == "[address-index]" {
+					// Known mechanism (same root cause as the C06 finding): a block that both spends and trims one output records it in
+					// its spent AND trimmed undo lists, so rolling it back re-adds the outpoint to the address index twice. Attribute the
+					// difference to it only if dropping exactly those duplicates makes the images equal.
+					both := map[string]bool{}
+					db := n.DBs[common.ZONE_CTX]
+					for _, h := range w.Tips {
+						sp, _ := rawdb.ReadSpentUTXOs(db, h)
+						trm, _ := rawdb.ReadTrimmedUTXOs(db, h)
+						isSp := map[string]bool{}
+						for _, x := range sp {
+							isSp[fmt.Sprintf("%x:%d", x.TxHash, x.Index)] = true
+						}
+						for _, x := range trm {
+							if k := fmt.Sprintf("%x:%d", x.TxHash, x.Index); isSp[k] {
+								both[k] = true
+							}
+						}
+					}
+					if len(both) > 0 {
+						a2 := map[string][]byte{}
+						for k, v := range a {
+							a2[k] = v
+							if len(k) > 4 && k[:4] == "auwh" {
+								var kept []string
+								seen := map[string]bool{}
+								for _, it := range strings.Split(string(v), ",") {
+									parts := strings.SplitN(it, ":", 3)
+									op := ""
+									if len(parts) >= 2 {
+										op = parts[0] + ":" + parts[1]
+									}
+									if both[op] && seen[it] {
+										continue
+									}
+									seen[it] = true
+									kept = append(kept, it)
+								}
+								a2[k] = []byte(strings.Join(kept, ","))
+							}
+						}
+						if DiffImages(a2, b) == "[]" {
+							cause = " cause=output-spent-and-trimmed-in-same-block"
+						}
+					}
+				}
+				fail("refine-vs-fresh-node", when+" differs="+classifyDiff(a, b)+cause, fmt.Sprintf("after switching to %x (#%d) the node's chain state differs from a node that followed that branch directly (left=reorged node, right=fresh node): %s", tip[:6], w.Blocks[tip].Number, d))
 				return
 			}
 			simkit.Global.Inc("reorg_images_compared")
